@@ -149,7 +149,7 @@ def oracle_c13(line, go):
         return "%s handlers ran at once with MaxConcurrentStreams=%d" % (fl["maxhandlers"], ms)
     for gi, it in items(groups):
         if it.startswith("g") and "," in it:
-            strms, opn, ring = (int(x) for x in it[1:].split(","))
+            strms, opn, ring = (int(x) for x in it[1:].split(",")[:3])
             if opn > ms:
                 return "open stream slots %d > MaxConcurrentStreams %d" % (opn, ms)
             if strms > ms + 1:
